@@ -37,8 +37,12 @@ impl Rng {
 }
 
 /// Outcome of running `f` under catch_unwind (a panic inside the code under test is data).
+pub static IN_GUARD: AtomicBool = AtomicBool::new(false);
 pub fn guarded<T>(f: impl FnOnce() -> T) -> Result<T, String> {
-    std::panic::catch_unwind(std::panic::AssertUnwindSafe(f)).map_err(|e| {
+    IN_GUARD.store(true, Ordering::SeqCst);
+    let r = std::panic::catch_unwind(std::panic::AssertUnwindSafe(f));
+    IN_GUARD.store(false, Ordering::SeqCst);
+    r.map_err(|e| {
         if let Some(s) = e.downcast_ref::<&str>() {
             s.to_string()
         } else if let Some(s) = e.downcast_ref::<String>() {
